@@ -77,7 +77,8 @@ CHECKS = {
               "runtime monitoring: differential oracle over real source executions; direct range-arithmetic inspection"),
     "C16": _c("jobgen", "Sequential random pipelines (one replica end to end, local(1), remote [1], and sequential segments inside larger deployments): every "
               "probe on a totally ordered variable and every collect_vec sink must equal the iterator-chain result as a sequence, for every batch "
-              "mode and transport. reorder() is covered by the C06/C13 script engine.",
+              "mode and transport. reorder() is run on scripted timestamped sources (also inside replay loops, where every round restarts event time): "
+              "output sorted, same multiset per iteration, released only under a covering watermark or the end of the iteration.",
               JOBGEN_NOTE, "runtime monitoring: sequence equality against the sequential reference on probe traces and sinks"),
     "C19": _c("graphdump", "The hook StreamContext::verif_execution_graph computes the execution graph and address map exactly as execute_blocking would, "
               "without starting threads. For a catalogue of ~45 programs covering every block shape and a grid of configurations (local 1..8, all "
@@ -114,12 +115,15 @@ CHECKS = {
     "C17": _c("scripts", "With the link log on, the batches a consumer replica actually received (in its own arrival order) drive a reference model of the block input written from the "
               "statement: minimum over the upstream replicas that have not ended their iteration of their latest watermark; whenever it rises, the probe right after Start "
               "must show Watermark(new minimum) before any later element. Because the expectation is computed from observed arrivals the check is schedule independent and "
-              "also runs on multi-host, binary-start and in-loop jobs. Increases caused by a replica's end are the open finding F2.",
+              "also runs on multi-host, binary-start and in-loop jobs. Increases caused by a replica's end are the open finding F2. Between End and Start a watermark may only wait "
+              "for the rest of its batch: every watermark-carrying batch on every link is checked against the capacity of the batch mode.",
               "Trusts the 40-line frontier model; arrival order is the order of Recv hook events on the consumer's own thread.",
               "runtime monitoring: reference-model monitor over hooked receive events vs. probe trace"),
     "C18": _c("latmon", "A harness thread hands bursts of fewer elements than the batch size to a channel source and then stays silent; with adaptive batching every element must reach "
               "collect_channel while the source is idle and open within 2 s + 100 x depth x max_delay (two orders of magnitude above the claim; a miss is re-run 3 times and only "
-              "a reproducible one is a violation); with any mode everything must have arrived once the source is closed. Latencies are reported as multiples of depth x max_delay.",
+              "a reproducible one is a violation); with any mode everything must have arrived once the source is closed. Latencies are reported as multiples of depth x max_delay. "
+              "Connections: shuffle, group_by, replication change, route()+merge, split()+merge. Batch-mode invariance: every generated program (sub-workload batch_equiv) and loop shapes "
+              "with 40-160 elements per round (batch_loops) are executed under seven batch modes and compared with the batch-independent sequential reference; a certified non-return is a violation.",
               "The only intrinsically wall-clock property: decided on a bound far above the claim so that load cannot flip it.",
               "runtime monitoring: bounded-progress monitor at the client boundary (send/arrival times)"),
     "C20": _c("faultmon", "Crash points are enumerated: for random acyclic programs and configurations a clean run records how many elements each (operator, replica) forwards; the job is "
